@@ -743,7 +743,7 @@ def check_strrep(ctx, prog):
         if hit:
             writers.append(f)
     # members that write it through a helper of Var (operator=(const char*) -> setChars(p, n)) are writers too
-    direct = set(f['id'] for f in writers)
+    direct = set(id(f) for f in writers)
 
     def var_callees(g_):
         out = []
@@ -752,15 +752,15 @@ def check_strrep(ctx, prog):
                 out += [h_ for h_ in prog.fn(e.get('fn'), e.get('sig')) if h_.get('body')]
         return out
     changed = True
-    via = set(direct)
+    via = set(direct)           # function objects by identity: ids are only unique within one translation unit
     while changed:
         changed = False
         for f in prog.functions:
-            if f.get('cls') == 'asl::Var' and f.get('body') and f['id'] not in via and any(h_['id'] in via for h_ in var_callees(f)):
-                via.add(f['id'])
+            if f.get('cls') == 'asl::Var' and f.get('body') and id(f) not in via and any(id(h_) in via for h_ in var_callees(f)):
+                via.add(id(f))
                 changed = True
     for f in prog.functions:
-        if f['id'] in via and f['id'] not in direct and len(f['params']) == 1 and (T(f, f['params'][0]['t']).get('s') or '') in ('const char *', 'const asl::String &'):
+        if f.get('cls') == 'asl::Var' and id(f) in via and id(f) not in direct and len(f['params']) == 1 and (T(f, f['params'][0]['t']).get('s') or '') in ('const char *', 'const asl::String &'):
             writers.append(f)
     n_dec = 0
     helpers, driven = [], []
@@ -881,16 +881,16 @@ def check_strrep(ctx, prog):
     work = list(driven)
     while work:
         g_ = work.pop()
-        if g_['id'] in reach:
+        if id(g_) in reach:
             continue
-        reach.add(g_['id'])
+        reach.add(id(g_))
         for e in fn_exprs(g_):
             if e.get('k') == 'call' and (e.get('cls') == 'asl::Var' or (e.get('fn') or '').startswith('asl::Var::')):
                 for h_ in prog.fn(e.get('fn'), e.get('sig')):
-                    if h_.get('body') and h_['id'] not in reach:
+                    if h_.get('body') and id(h_) not in reach:
                         work.append(h_)
     for f, role, kinds in helpers:
-        if f['id'] in reach:
+        if id(f) in reach:
             ctx.ok('C04.strrep', f['pq'], role, fwhere(f), 'helper with parameters (%s): interpreted as part of the writers that call it' % ', '.join(kinds))
         else:
             ctx.undecided('C04.strrep', f['pq'], role, fwhere(f), 'writer with parameters (%s) is not driven and no driven writer calls it' % ', '.join(kinds))
